@@ -41,25 +41,23 @@ theorem rt_cls_any (hw : w.WF = true) (he : env.OK) {c : Nat} {dc : Bool} {fs : 
     unfold RT; rw [hu]; exact this
   · exact rt_cls_custom hs hc (by simpa using hpt) ih
 
-/-- a mapping: `Counter`, the generated mapping hook, or (msgspec) handed to `to_builtins` -/
+/-- a mapping: the generated mapping hook (always for a `Counter`), or (msgspec) handed to `to_builtins` -/
 theorem rt_map_any (hw : w.WF = true) (he : env.OK) {k : PMK} {kt vt : PTy} {kvs : List (Obj × Obj)}
     (hs : sup w cf (.map k kt vt) = true) (hc : confP w (.map k kt vt) (.dict kvs) = true)
     (ih : ∀ p ∈ kvs, RT w env cf vt p.2) : RT w env cf (.map k kt vt) (.dict kvs) := by
-  by_cases hkc : k = .counter
-  · subst hkc; exact rt_counter hw he hs hc
-  · have hk1 : (k == .counter) = false := by simpa using hkc
-    by_cases hpt : (cf.fmt == .msgspec && hk cf kt != .custom && hk cf vt != .custom) = true
-    · have hpt2 := hpt
-      simp only [Bool.and_eq_true, beq_iff_eq] at hpt2
-      have hh : hk cf (.map k kt vt) ≠ .custom := by
-        simp only [hk, hk1, Bool.false_eq_true, if_false]
-        rw [if_pos (by simp [hpt2.1.2, hpt2.2])]
-        simp
-      have hu : unP w env cf (.map k kt vt) (.dict kvs) = toB w env (.dict kvs) := by
-        simp only [unP, hk1, Bool.false_eq_true, if_false]; rw [if_pos hpt]
-      have := rtb hw he hpt2.1.1 (.map k kt vt) (.dict kvs) hh hs hc
-      unfold RT; rw [hu]; exact this
-    · exact rt_map_custom hw he hs hc hk1 (by simpa using hpt) ih
+  by_cases hpt : (cf.fmt == .msgspec && k != .counter && hk cf kt != .custom && hk cf vt != .custom) = true
+  · have hpt2 := hpt
+    simp only [Bool.and_eq_true, beq_iff_eq, bne_iff_ne, ne_eq] at hpt2
+    have hk1 : (k == .counter) = false := by simpa using hpt2.1.1.2
+    have hh : hk cf (.map k kt vt) ≠ .custom := by
+      simp only [hk, hk1, Bool.false_eq_true, if_false]
+      rw [if_pos (by simp [hpt2.1.2, hpt2.2])]
+      simp
+    have hu : unP w env cf (.map k kt vt) (.dict kvs) = toB w env (.dict kvs) := by
+      simp only [unP]; rw [if_pos hpt]
+    have := rtb hw he hpt2.1.1.1 (.map k kt vt) (.dict kvs) hh hs hc
+    unfold RT; rw [hu]; exact this
+  · exact rt_map_custom hw he hs hc (by simpa using hpt) ih
 
 /-- a TypedDict on json / pyyaml: entrywise hooks by declared type -/
 theorem rt_td_typed (hf : cf.fmt ≠ .msgspec) {fs : List (String × Bool × PTy)} {kvs : List (Obj × Obj)}
